@@ -524,6 +524,210 @@ fn client_retry(sc: &Scenario, sink: &Sink) {
     }
 }
 
+// ------------------------------------------------------------------ RTU channel / server created through the C ABI
+/// what `serial::open` reaches with the hooks compiled in: records the settings it was called with
+struct FfiOpener {
+    ok: Arc<AtomicBool>,
+    seen: Arc<Mutex<Vec<Value>>>,
+    io: Arc<Mutex<Option<vharness::vio::IoHandle>>>,
+}
+impl rodbus::verif::PortOpener for FfiOpener {
+    fn open(&self, _path: &str) -> std::io::Result<Box<dyn rodbus::verif::VerifIo>> {
+        Err(std::io::Error::from(std::io::ErrorKind::Unsupported))
+    }
+    fn open_with(&self, path: &str, s: rodbus::SerialSettings) -> std::io::Result<Box<dyn rodbus::verif::VerifIo>> {
+        self.seen.lock().unwrap().push(json!({"path":path,"baud":s.baud_rate,"data_bits":format!("{:?}", s.data_bits),
+            "flow":format!("{:?}", s.flow_control),"parity":format!("{:?}", s.parity),"stop":format!("{:?}", s.stop_bits)}));
+        if self.ok.load(Ordering::SeqCst) {
+            let (io, h) = vharness::vio::script_io(Sink::null());
+            h.record_tx(true);
+            *self.io.lock().unwrap() = Some(h);
+            Ok(Box::new(io))
+        } else {
+            Err(std::io::Error::from(std::io::ErrorKind::NotFound))
+        }
+    }
+}
+
+fn ffi_serial_settings(c: &Value) -> ffi::SerialPortSettings {
+    ffi::SerialPortSettingsFields {
+        baud_rate: c["baud"].as_u64().unwrap() as u32,
+        data_bits: match c["data_bits"].as_str().unwrap() {
+            "Five" => ffi::DataBits::Five,
+            "Six" => ffi::DataBits::Six,
+            "Seven" => ffi::DataBits::Seven,
+            _ => ffi::DataBits::Eight,
+        },
+        flow_control: match c["flow"].as_str().unwrap() {
+            "Software" => ffi::FlowControl::Software,
+            "Hardware" => ffi::FlowControl::Hardware,
+            _ => ffi::FlowControl::None,
+        },
+        parity: match c["parity"].as_str().unwrap() {
+            "Odd" => ffi::Parity::Odd,
+            "Even" => ffi::Parity::Even,
+            _ => ffi::Parity::None,
+        },
+        stop_bits: match c["stop"].as_str().unwrap() {
+            "Two" => ffi::StopBits::Two,
+            _ => ffi::StopBits::One,
+        },
+    }
+    .into()
+}
+
+struct PortStates {
+    names: Mutex<Vec<String>>,
+}
+extern "C" fn on_port_state(state: c_int, ctx: *mut c_void) {
+    let c = unsafe { &*(ctx as *const PortStates) };
+    let name = if state == c_int::from(ffi::PortState::Disabled) {
+        "Disabled"
+    } else if state == c_int::from(ffi::PortState::Wait) {
+        "Wait"
+    } else if state == c_int::from(ffi::PortState::Open) {
+        "Open"
+    } else if state == c_int::from(ffi::PortState::Shutdown) {
+        "Shutdown"
+    } else {
+        "?"
+    };
+    c.names.lock().unwrap().push(name.to_string());
+}
+
+fn crc16(data: &[u8]) -> u16 {
+    let mut crc: u16 = 0xFFFF;
+    for b in data {
+        crc ^= *b as u16;
+        for _ in 0..8 {
+            crc = if crc & 1 != 0 { (crc >> 1) ^ 0xA001 } else { crc >> 1 };
+        }
+    }
+    crc
+}
+
+fn rtu_frame(unit: u8, pdu: &[u8]) -> Vec<u8> {
+    let mut b = vec![unit];
+    b.extend_from_slice(pdu);
+    let c = crc16(&b);
+    b.push(c as u8);
+    b.push((c >> 8) as u8);
+    b
+}
+
+/// every scenario step is one configuration `cfg` = {path, baud, data_bits, flow, parity, stop, unit}
+fn rtu_cabi(sc: &Scenario, sink: &Sink) {
+    for st in &sc.steps {
+        let cfg: Value = serde_json::from_str(&st.peer).expect("cfg json in `peer`");
+        let ok = Arc::new(AtomicBool::new(false));
+        let seen = Arc::new(Mutex::new(Vec::new()));
+        let io = Arc::new(Mutex::new(None));
+        rodbus::verif::install_port_opener(Some(Arc::new(FfiOpener { ok: ok.clone(), seen: seen.clone(), io: io.clone() })));
+        let path = CString::new(cfg["path"].as_str().unwrap()).unwrap();
+        let unit = cfg["unit"].as_u64().unwrap() as u8;
+        unsafe {
+            let rt = runtime();
+            if st.op == "client" {
+                let pctx = Box::leak(Box::new(PortStates { names: Mutex::new(Vec::new()) }));
+                let l = ffi::PortStateListener { on_change: Some(on_port_state), on_destroy: None, ctx: pctx as *mut PortStates as *mut c_void };
+                let mut ch: *mut rodbus_ffi::ClientChannel = std::ptr::null_mut();
+                let rc = ffi::rodbus_client_channel_create_rtu(rt, path.as_ptr(), ffi_serial_settings(&cfg), 4, ffi::RetryStrategy { min_delay: 60, max_delay: 60 }, decode0(), l, &mut ch);
+                if rc != 0 {
+                    sink.emit(json!({"e":"ffi_rtu","role":"client","cfg":cfg,"create_rc":rc}));
+                    ffi::rodbus_runtime_destroy(rt);
+                    continue;
+                }
+                // the port is missing at first: the channel waits and tries again
+                ffi::rodbus_client_channel_enable(ch);
+                wait_for(|| seen.lock().unwrap().len() >= 2, 2000);
+                ok.store(true, Ordering::SeqCst);
+                wait_for(|| io.lock().unwrap().is_some(), 2000);
+                wait_for(|| pctx.names.lock().unwrap().iter().any(|x| x == "Open"), 1000);
+                let ctx = Box::leak(Box::new(CbCtx { sink: Sink::null(), r: 0, completions: AtomicU64::new(0), destroys: AtomicU64::new(0), done: AtomicBool::new(false), t0: Instant::now() }));
+                let slot = Box::leak(Box::new(RtuResult { vals: Mutex::new(None) }));
+                let _ = ctx;
+                let cb = ffi::RegisterReadCallback { on_complete: Some(rtu_regs), on_failure: Some(rtu_fail), on_destroy: None, ctx: slot as *mut RtuResult as *mut c_void };
+                ffi::rodbus_client_channel_read_holding_registers(ch, ffi::RequestParam { unit_id: unit, timeout: 1500 }, ffi::AddressRange { start: 7, count: 2 }, cb);
+                let h = io.lock().unwrap().clone();
+                let mut tx: Vec<u8> = Vec::new();
+                if let Some(h) = h.as_ref() {
+                    let t0 = Instant::now();
+                    while tx.len() < 8 && t0.elapsed() < Duration::from_millis(1500) {
+                        for f in h.take_tx() {
+                            tx.extend_from_slice(&f);
+                        }
+                        std::thread::sleep(Duration::from_millis(2));
+                    }
+                    h.push(&rtu_frame(unit, &[3, 4, 0x12, 0x34, 0xAB, 0xCD]));
+                }
+                wait_for(|| slot.vals.lock().unwrap().is_some(), 2500);
+                let result = slot.vals.lock().unwrap().clone().unwrap_or_else(|| "pending".to_string());
+                ffi::rodbus_client_channel_destroy(ch);
+                wait_for(|| pctx.names.lock().unwrap().iter().any(|x| x == "Shutdown"), 1500);
+                let mut states = pctx.names.lock().unwrap().clone();
+                states.dedup();
+                sink.emit(json!({"e":"ffi_rtu","role":"client","cfg":cfg,"create_rc":0,"seen":seen.lock().unwrap().clone(),
+                    "states":states,"tx":bytes_json(&tx),"result":result}));
+            } else {
+                ok.store(true, Ordering::SeqCst);
+                let handler = ffi::WriteHandler { write_single_coil: None, write_single_register: None, write_multiple_coils: None, write_multiple_registers: None, on_destroy: None, ctx: std::ptr::null_mut() };
+                let ictx = Box::leak(Box::new(StressCtx { value: 0, block: 4, coils: false, pt: 2 }));
+                let dbcfg = ffi::DatabaseCallback { callback: Some(stress_init), on_destroy: None, ctx: ictx as *mut StressCtx as *mut c_void };
+                let map = ffi::rodbus_device_map_create();
+                ffi::rodbus_device_map_add_endpoint(map, unit, handler, dbcfg);
+                let mut server: *mut rodbus_ffi::Server = std::ptr::null_mut();
+                let rc = ffi::rodbus_server_create_rtu(rt, path.as_ptr(), ffi_serial_settings(&cfg), ffi::RetryStrategy { min_delay: 60, max_delay: 60 }, map, decode0(), &mut server);
+                ffi::rodbus_device_map_destroy(map);
+                if rc != 0 {
+                    sink.emit(json!({"e":"ffi_rtu","role":"server","cfg":cfg,"create_rc":rc}));
+                    ffi::rodbus_runtime_destroy(rt);
+                    continue;
+                }
+                wait_for(|| io.lock().unwrap().is_some(), 2000);
+                let h = io.lock().unwrap().clone();
+                let mut tx: Vec<u8> = Vec::new();
+                if let Some(h) = h.as_ref() {
+                    h.push(&rtu_frame(unit, &[3, 0, 1, 0, 2]));
+                    let t0 = Instant::now();
+                    while tx.len() < 9 && t0.elapsed() < Duration::from_millis(1500) {
+                        for f in h.take_tx() {
+                            tx.extend_from_slice(&f);
+                        }
+                        std::thread::sleep(Duration::from_millis(2));
+                    }
+                }
+                ffi::rodbus_server_destroy(server);
+                sink.emit(json!({"e":"ffi_rtu","role":"server","cfg":cfg,"create_rc":0,"seen":seen.lock().unwrap().clone(),
+                    "states":[],"tx":bytes_json(&tx),"result":""}));
+            }
+            ffi::rodbus_runtime_destroy(rt);
+        }
+        rodbus::verif::install_port_opener(None);
+    }
+}
+
+struct RtuResult {
+    vals: Mutex<Option<String>>,
+}
+extern "C" fn rtu_regs(it: *mut rodbus_ffi::RegisterValueIterator, ctx: *mut c_void) {
+    let c = unsafe { &*(ctx as *const RtuResult) };
+    let mut v = Vec::new();
+    unsafe {
+        loop {
+            let p = ffi::rodbus_register_value_iterator_next(it);
+            if p.is_null() {
+                break;
+            }
+            v.push(format!("{}@{}", (*p).value, (*p).index));
+        }
+    }
+    *c.vals.lock().unwrap() = Some(format!("ok:{}", v.join(",")));
+}
+extern "C" fn rtu_fail(err: c_int, ctx: *mut c_void) {
+    let c = unsafe { &*(ctx as *const RtuResult) };
+    *c.vals.lock().unwrap() = Some(format!("error{err}"));
+}
+
 // ------------------------------------------------------------------ decode levels named through the C ABI
 static LOG_LINES: Mutex<Vec<String>> = Mutex::new(Vec::new());
 extern "C" fn on_log(_level: c_int, message: *const std::os::raw::c_char, _ctx: *mut c_void) {
@@ -901,6 +1105,7 @@ fn main() {
             "client_queue" => client_queue(&sc, &sink),
             "client_retry" => client_retry(&sc, &sink),
             "decode_levels" => decode_levels(&sc, &sink),
+            "rtu_cabi" => rtu_cabi(&sc, &sink),
             "db_seq" => db_seq(&sc, &sink),
             _ => db_stress(&sc, &sink),
         }));
